@@ -26,6 +26,7 @@ def cases(draw):
                                              "equal-schemas-different-stores", "shared-reference-objects",
                                              "first-cannot-retrieve"]))
     # make errors plentiful: an extra always-failing-somewhere property with a format and a pattern
+    w["checkers"] = draw(st.sampled_from(["plain", "plain", "subclass", "mixed"]))
     return w
 
 
@@ -54,11 +55,11 @@ def variant(case, k):
         # the same two regular expressions in every variant, in another member order and with other subschemas
         pp = [("^v", {"type": "string"}), ("x$", {"minimum": 7})]      # "vq": "s" / "wx": 9 satisfy one arrangement only
         root["patternProperties"] = dict(pp if k % 2 == 0 else [(pp[1][0], pp[0][1]), (pp[0][0], pp[1][1])])
-    if props is not None and "ve" not in props:
+    if props is not None and "en" not in props:
         # a long list of scalars that Python's == / hash cannot tell from its twin in the next variant (1 / true,
         # 0 / false, 2 / 2.0): as JSON they are different lists
         long_enum = [[1, 0, "a", "b", "c", 2, None, 10, 11, 12], [True, False, "a", "b", "c", 2.0, None, 10, 11, 12]]
-        props["ve"] = {"enum": long_enum[k % 2]}
+        props["en"] = {"enum": long_enum[k % 2]}
     return c
 
 
@@ -69,8 +70,13 @@ RULES = [lambda x: not isinstance(x, str) or len(x) % 2 == 0, lambda x: not isin
 _SUB = []
 
 
+CHECKER_STYLE = ["mixed"]       # set per case in check(): "plain" = every validator FormatChecker(formats=()), "subclass" =
+                                # all but the first a user subclass with its own registry, "mixed" = only the second
+
+
 def checker_for(k):
-    if k >= 1:
+    style = CHECKER_STYLE[0]
+    if (style == "subclass" and k >= 1) or (style == "mixed" and k == 1):
         # a user's subclass with a registry of its own: its instances are still independent objects
         if not _SUB:
             _SUB.append(type("OwnRegistryChecker", (impl.jsonschema.FormatChecker,), {"checkers": {}}))
@@ -148,7 +154,7 @@ def instance_for(case, k):
     x = copy.deepcopy(xs[k % len(xs)])
     if isinstance(x, dict):
         # the SAME string goes through every validator's own "vf" function (they disagree about it)
-        x.setdefault("ve", [1, True, 0, False][k % 4])     # in one variant's list, not in the other's
+        x.setdefault("en", [1, True, 0, False][k % 4])     # in one variant's list, not in the other's
         x.setdefault("vq", "s")     # meets only the first expression
         x.setdefault("wx", 9)       # meets only the second
         x.setdefault("vf", ["ab", "b", "abcd", "abc"][len(case["instances"][0]) % 4 if isinstance(
@@ -193,6 +199,7 @@ class C18(Prop):
     def check(self, case):
         res = Result()
         res.evals = 0
+        CHECKER_STYLE[0] = case.get("checkers") if case.get("checkers") in ("plain", "subclass", "mixed") else "mixed"
         ok, why = GW.wellformed(case)
         if not ok:
             res.excluded = why
